@@ -863,7 +863,7 @@ func (v *Validator) typeOfAccess(env *requestEnv, n ast.NodeTypeAccess, caps cap
 	if !attrType.required {
 		varName := exprVarName(n.Arg)
 		if varName == "" || !caps.has(capability{varName: varName, attr: n.Value}) {
-			errs = append(errs, v.unsafeOptionalAccessError(env, t, n.Value, exprVarName(n.Arg)))
+			errs = append(errs, v.unsafeOptionalAccessError(env, t, n.Value, exprDisplayPath(n.Arg)))
 		}
 	}
 
@@ -1370,12 +1370,28 @@ func isEntityOrSetOfEntity(t cedarType) bool {
 	return false
 }
 
+// exprVarName returns an injective key for a variable or a chain of attribute accesses on
+// a variable ("" for anything else). Attribute names are length-prefixed so that
+// `principal["a.b"]` and `principal.a.b` get different keys.
 func exprVarName(n ast.IsNode) types.String {
 	if nd, ok := n.(ast.NodeTypeVariable); ok {
 		return nd.Name
 	}
 	if nd, ok := n.(ast.NodeTypeAccess); ok {
 		if parent := exprVarName(nd.Arg); parent != "" {
+			return parent + types.String(fmt.Sprintf(".%d:", len(nd.Value))) + nd.Value
+		}
+	}
+	return ""
+}
+
+// exprDisplayPath is the dotted path used in diagnostics (not injective).
+func exprDisplayPath(n ast.IsNode) types.String {
+	if nd, ok := n.(ast.NodeTypeVariable); ok {
+		return nd.Name
+	}
+	if nd, ok := n.(ast.NodeTypeAccess); ok {
+		if parent := exprDisplayPath(nd.Arg); parent != "" {
 			return parent + "." + nd.Value
 		}
 	}
